@@ -1,0 +1,24 @@
+//go:build verif
+
+package NoKV
+
+import "github.com/feichai0017/NoKV/kv"
+
+// Accessors for the crash-recovery verification harness (/verif, family "crash").
+
+// VerifCrashGC rewrites one sealed value-log file synchronously (vlog_gc.go:rewrite).
+func (db *DB) VerifCrashGC(bucket, fid uint32) error { return db.vlog.rewrite(bucket, fid) }
+
+// VerifVlogFids lists the value-log files of a bucket and its active file id.
+func (db *DB) VerifVlogFids(bucket uint32) (fids []uint32, active uint32) {
+	mgr, err := db.vlog.managerFor(bucket)
+	if err != nil {
+		return nil, 0
+	}
+	return mgr.ListFIDs(), mgr.ActiveFID()
+}
+
+// VerifVlogBucket reports the value-log bucket an internal key hashes to.
+func (db *DB) VerifVlogBucket(internalKey []byte) uint32 {
+	return db.vlog.bucketForEntry(&kv.Entry{Key: internalKey})
+}
